@@ -21,6 +21,30 @@ type Ptr struct {
 	I int
 }
 type Cell struct{ V Val }
+
+// Struct is a struct value (fields in declaration order).
+type Struct struct{ F []Val }
+
+// FieldPtr addresses one field of a struct.
+type FieldPtr struct {
+	S *Struct
+	I int
+}
+
+func copyVal(v Val) Val {
+	switch x := v.(type) {
+	case *Struct:
+		if x == nil {
+			return x
+		}
+		n := &Struct{F: make([]Val, len(x.F))}
+		for i, f := range x.F {
+			n.F[i] = copyVal(f)
+		}
+		return n
+	}
+	return v
+}
 type Val interface{}
 
 type Evaluator struct {
@@ -100,6 +124,8 @@ func (ev *Evaluator) constVal(c *ssa.Const) Val {
 			return (*ssa.Function)(nil)
 		case *types.Slice:
 			return (*Slice)(nil)
+		case *types.Struct, *types.Array:
+			return ev.zero(c.Type())
 		}
 		fail("unsupported nil constant of type %s", c.Type())
 	}
@@ -150,6 +176,10 @@ func (ev *Evaluator) get(fr *frame, v ssa.Value) Val {
 func (ev *Evaluator) call(fn *ssa.Function, args []Val, depth int) []Val {
 	if depth > 40 {
 		fail("call depth exceeded in %s", fn.Name())
+	}
+	switch fn.String() {
+	case "bytes.IndexByte", "strings.IndexByte", "strings.ToUpper", "strings.ToLower":
+		return ev.external(fn, args)
 	}
 	if fn.Blocks == nil {
 		return ev.external(fn, args)
@@ -237,9 +267,11 @@ func (ev *Evaluator) store(addr, val Val) {
 		if a.I < 0 || a.I >= len(a.S.Elems) {
 			fail("store out of range")
 		}
-		a.S.Elems[a.I] = val
+		a.S.Elems[a.I] = copyVal(val)
 	case *Cell:
-		a.V = val
+		a.V = copyVal(val)
+	case *FieldPtr:
+		a.S.F[a.I] = copyVal(val)
 	default:
 		fail("unsupported store target %T", addr)
 	}
@@ -251,9 +283,11 @@ func (ev *Evaluator) load(addr Val) Val {
 		if a.I < 0 || a.I >= len(a.S.Elems) {
 			fail("load out of range")
 		}
-		return a.S.Elems[a.I]
+		return copyVal(a.S.Elems[a.I])
 	case *Cell:
-		return a.V
+		return copyVal(a.V)
+	case *FieldPtr:
+		return copyVal(a.S.F[a.I])
 	}
 	fail("unsupported load from %T", addr)
 	return nil
@@ -274,6 +308,14 @@ func (ev *Evaluator) zero(t types.Type) Val {
 		return (*ssa.Function)(nil)
 	case *types.Slice:
 		return (*Slice)(nil)
+	case *types.Struct:
+		st := &Struct{F: make([]Val, u.NumFields())}
+		for i := range st.F {
+			st.F[i] = ev.zero(u.Field(i).Type())
+		}
+		return st
+	case *types.Pointer:
+		return (*Cell)(nil)
 	case *types.Array:
 		s := &Slice{Elems: make([]Val, u.Len())}
 		for i := range s.Elems {
@@ -302,8 +344,15 @@ func (ev *Evaluator) evalValue(fr *frame, v ssa.Value, depth int) Val {
 		return s
 	case *ssa.IndexAddr:
 		base := ev.get(fr, x.X)
-		if c, ok := base.(*Cell); ok { // pointer to array
+		switch c := base.(type) { // pointer to array
+		case *Cell:
 			base = c.V
+		case *FieldPtr:
+			base = c.S.F[c.I]
+		case *Ptr:
+			if inner, ok := c.S.Elems[c.I].(*Slice); ok {
+				base = inner
+			}
 		}
 		s, ok := base.(*Slice)
 		if !ok || s == nil {
@@ -429,7 +478,28 @@ func (ev *Evaluator) evalValue(fr *frame, v ssa.Value, depth int) Val {
 		return t[x.Index]
 	case *ssa.Call:
 		return ev.evalCall(fr, x, depth)
-	case *ssa.MakeInterface, *ssa.MakeClosure, *ssa.MakeMap, *ssa.MakeChan, *ssa.FieldAddr, *ssa.Field, *ssa.TypeAssert, *ssa.Range, *ssa.Next, *ssa.Select:
+	case *ssa.FieldAddr:
+		base := ev.get(fr, x.X)
+		var st *Struct
+		switch b := base.(type) {
+		case *Cell:
+			st, _ = b.V.(*Struct)
+		case *Ptr:
+			st, _ = b.S.Elems[b.I].(*Struct)
+		case *FieldPtr:
+			st, _ = b.S.F[b.I].(*Struct)
+		}
+		if st == nil {
+			fail("FieldAddr on %T", base)
+		}
+		return &FieldPtr{st, x.Field}
+	case *ssa.Field:
+		st, ok := ev.get(fr, x.X).(*Struct)
+		if !ok || st == nil {
+			fail("Field on non-struct")
+		}
+		return copyVal(st.F[x.Field])
+	case *ssa.MakeInterface, *ssa.MakeClosure, *ssa.MakeMap, *ssa.MakeChan, *ssa.TypeAssert, *ssa.Range, *ssa.Next, *ssa.Select:
 		fail("%s: instruction %T not modelled", fr.fn.Name(), v)
 	}
 	fail("%s: unsupported value %T", fr.fn.Name(), v)
